@@ -230,30 +230,17 @@ def _sh(t, ul, ur, lr, ll, inc):
 def _r4_constructors(run):
     project = run.project
     allowed = {T + "._create_level1_tiles", T + "._div4"}
-    sites = []
-    for f in project.py_funcs():
-        for c in own_calls(f.node):
-            d = dotted(c.func) or ""
-            if d.split(".")[-1] == "Tile" and (c.args or c.keywords):
-                sites.append((f, c))
+    sites = toastgeom.tile_construction_sites(project)
     run.call_sites += len(sites)
-    bad = []
-    for f, c in sites:
-        if f.qual in allowed:
-            continue
-        # the documented corner-less level-0 tile
-        corners = c.args[1] if len(c.args) > 1 else next((k.value for k in c.keywords if k.arg == "corners"), None)
-        if isinstance(corners, ast.Tuple) and all(isinstance(e, ast.Constant) and e.value is None for e in corners.elts):
-            continue
-        bad.append((f, c))
+    bad = [(f, c, kind) for f, c, kind in sites if f.qual not in allowed]
     if bad:
-        for f, c in bad:
-            run.violated("C04.R4", f, c, "%s constructs a Tile with corners itself; tiles must come from _create_level1_tiles / _div4 so that "
-                         "every route yields identical geometry" % f.short, kind="tile-constructed-elsewhere")
+        for f, c, kind in bad:
+            run.violated("C04.R4", f, c, "%s makes a Tile with corners itself (%s); tiles must come from _create_level1_tiles / _div4 so that "
+                         "every route yields identical geometry" % (f.short, kind), kind="tile-constructed-elsewhere")
     else:
-        run.holds("C04.R4", project.fn(T + "._div4"), None, "Tile(...) with corners is constructed only by _create_level1_tiles and _div4",
+        run.holds("C04.R4", project.fn(T + "._div4"), None, "Tiles with corners are made only by _create_level1_tiles and _div4",
                   sites=len(sites))
-    owners = {f.qual for f, c in sites}
+    owners = {f.qual for f, c, kind in sites}
     if not allowed <= owners:
         run.undecided("C04.R4", None, None, "no Tile(...) construction found in %s (the who-may-construct query sees %d sites)" % (
             sorted(allowed - owners), len(sites)), kind="floor", construct="<Tile sites>", file="toasty/toast.py")
